@@ -228,9 +228,9 @@ theorem missingSuper_noError_iff (path : String) (s : Schema) (e : Entity) :
 
 /-! ### an inherited attribute declared again (OVERLOADED_ATTR) -/
 
-/-- no new (not redeclared) attribute of `e` is found by `ENTITYget_named_attribute` in a supertype of `e` -/
+/-- no new (not redeclared) attribute of `e` is found by the marked search `ENTITY_get_named_attribute_once` in a supertype of `e` -/
 def NoOverload (s : Schema) (fuel : Nat) (e : Entity) : Prop :=
-  ∀ a ∈ e.attrs, a.redeclOf = none → ∀ sup ∈ supersOf s e, namedAttr s a.name fuel sup ≠ some true
+  ∀ a ∈ e.attrs, a.redeclOf = none → ∀ sup ∈ supersOf s e, overloadFound s a.name fuel sup ≠ some true
 
 theorem overload_noError_iff (path : String) (s : Schema) (fuel : Nat) (e : Entity) :
     hasError (overloadDiags path s fuel e) = false ↔ NoOverload s fuel e := by
@@ -253,7 +253,7 @@ theorem overload_noError_iff (path : String) (s : Schema) (fuel : Nat) (e : Enti
   simp only [overloadDiags, List.filterMap_eq_nil_iff, NoOverload]
   constructor
   · intro h a ha hr sup hsup hfound
-    have := h (namedAttr s a.name fuel sup, mk path LibErrors.OVERLOADED_ATTR a.line [sArg a.name, sArg (declName sup)]) (by
+    have := h (overloadFound s a.name fuel sup, mk path LibErrors.OVERLOADED_ATTR a.line [sArg a.name, sArg (declName sup)]) (by
       simp only [overloadCands, List.mem_flatMap]
       exact ⟨a, ha, by simp [hr]; exact ⟨sup, hsup, rfl, rfl⟩⟩)
     simp [hfound] at this
@@ -504,6 +504,20 @@ theorem varFind_iff (s : Schema) (an : String) (fuel : Nat) (en : String) (hf : 
         (fun n m hm => List.mem_cons_of_mem _ (superGraph_entities s n m hm)) fuel [en] (by simp) (by simp)
         (by simp only [List.length_cons, List.length_map, List.length_singleton, List.length_nil]; omega)
       exact closed_reach hc hmono hr
+
+/-- **overloaded attribute, independently of the look-up function**: with the fuel the pass uses, `NoOverload` says that no new
+    attribute of `e` has a second declaration — in a direct supertype or in any entity reachable from one through `SUBTYPE OF` -/
+theorem noOverload_iff_reach (s : Schema) (e : Entity) :
+    NoOverload s (s.decls.length + 1) e ↔
+      ∀ a ∈ e.attrs, a.redeclOf = none → ∀ sup ∈ supersOf s e,
+        ¬ ∃ x, ReachRefl (superGraph s) sup x ∧ ownsAttr s a.name x = true := by
+  have hf : s.entities.length < s.decls.length + 1 := by
+    have : s.entities.length ≤ s.decls.length := List.length_filterMap_le _ _
+    omega
+  simp only [NoOverload, overloadFound]
+  refine forall_congr' fun a => forall_congr' fun _ => forall_congr' fun _ => forall_congr' fun sup => forall_congr' fun _ => ?_
+  rw [← varFind_iff s a.name _ sup hf]
+  simp
 
 /-- `attr` is declared by `e` or by an entity reachable from it through `SUBTYPE OF` (the marked search of `VARfind`) -/
 def BareVisible (s : Schema) (fuel : Nat) (e : Entity) (an : String) : Prop := varFind s an fuel e.name = true
